@@ -3,6 +3,8 @@
    with the real-number semantics of the regenerated Segment<T> kernels. *)
 From Coq Require Import List ZArith Reals Lra Lia.
 Require Import PP.Expr PP.RealOps PP.PolyFacts PP.Model.PwModel PP.Proofs.IntegralProofs PP.Gen.Kernels.
+(* the binary64-level statements (jump at a breakpoint) live in C11F.v; they are re-exported from here *)
+Require Export PP.Props.C11F.
 Import ListNotations.
 Local Open Scope R_scope.
 
